@@ -155,6 +155,22 @@ HISTORY = {
     'C19r4-B': ('caught', 'R-disposition existed'),
     'C20r4-A': ('analysis-error', 'R-majority extended: a threshold cached in an attribute is evaluated, and must be recomputed wherever the voter set changes'),
     'C20r4-B': ('caught', 'R-hasquorum existed'),
+    'C01r5-A': ('missed', 'R-sender-prev-adjacent extended: at the send the pair still equals helper(<next index>) on every path (a pair computed before the batch loop is stale)'),
+    'C01r5-B': ('caught', 'R-majority (counted population) existed'),
+    'C02r5-A': ('caught', 'R-result-publish existed'),
+    'C02r5-B': ('analysis-error', 'R-gate-live: the gate is analysed with boolean returns normalised, so `return mutate(..) and marker is None` is reported as a mutation in front of the gate'),
+    'C03r5-A': ('caught', 'R-term-vote-writes existed'),
+    'C03r5-B': ('caught', 'R-majority (counted population) existed'),
+    'C04r5-A': ('caught', 'R-gate-live (marker set for every appended membership entry) existed'),
+    'C04r5-B': ('missed', 'R-gate-live extended: exactly `<index remembered for the election no-op> <= lastApplied` is entailed at the mutation'),
+    'C05r5-A': ('caught', 'R-timer-reset existed'),
+    'C05r5-B': ('missed', 'R-transfer-flags extended: the chunk slice runs from the transfer offset to that offset plus the batch size'),
+    'C06r5-A': ('caught', 'R-bounded-write existed'),
+    'C06r5-B': ('caught', 'R-payload-complete (snapshot position) existed'),
+    'C09r5-A': ('caught', 'R-payload-complete (applied-index source) existed'),
+    'C09r5-B': ('missed', 'R-transfer-restart extended: a transfer is cancelled under the same kind of key it was started with'),
+    'C10r5-A': ('caught', 'R-removed-excluded existed'),
+    'C10r5-B': ('caught', 'R-rollback-paired / R-log-owners existed'),
 }
 
 
